@@ -656,6 +656,88 @@ def rule_index_elem(prog):
     return out
 
 
+# ------------------------------------------------------------------ INDEX-DOMAIN
+
+def rule_index_domain(prog):
+    """An index counts positions of the sequence it was found in.  `v.iter().filter(..).position(..)` counts in the filtered view:
+    used to index or cut `v` itself it names another element as soon as the filter removed something in front of it."""
+    out = Out("INDEX-DOMAIN")
+    DISTORT = ("filter", "filter_map", "skip", "skip_while", "step_by", "chain", "flat_map", "flatten", "dedup", "dedup_by_key")
+    NEUTRAL = ("iter", "into_iter", "iter_mut", "enumerate", "as_slice", "peekable", "by_ref", "copied", "cloned", "map", "inspect",
+               "take", "take_while", "map_while", "fuse")
+    n = 0
+    for c in (prog.lsp, prog.front):
+        for b in c.bodies:
+            if "/tests" in c.file_of(b["sp"]) or c.file_of(b["sp"]).endswith("tests.rs"):
+                continue
+            for pos, parents in hir.walk(b["body"]):
+                if pos.get("k") != "MethodCall" or pos["m"] not in ("position", "rposition") or not pos.get("args"):
+                    continue
+                if not (hir.callee(pos) or pos.get("d") or "").startswith("core::") and "iter" not in (pos.get("d") or hir.callee(pos) or ""):
+                    pass
+                r_ = hir.strip(pos["recv"])
+                chain = []
+                while r_.get("k") == "MethodCall" and r_["m"] in DISTORT + NEUTRAL + ("rev",):
+                    chain.append(r_["m"])
+                    r_ = hir.strip(r_["recv"])
+                base = place(hir.strip_ref(r_))
+                n += 1
+                distorted = [m_ for m_ in chain if m_ in DISTORT]
+                item = b["d"]
+                if not distorted:
+                    out.add(item, "an index is used with the sequence it was counted in", True, c.loc(pos["sp"]),
+                            "position() over the sequence itself")
+                    continue
+                # the locals that hold the index
+                ids = set()
+                if parents:
+                    pr = parents[-1]
+                    if pr.get("k") == "MethodCall" and any(x is pos for x in hir.nodes(pr["recv"])) and pr.get("args"):
+                        for a_ in pr["args"]:
+                            a_ = hir.strip(a_)
+                            if a_.get("k") == "Closure":
+                                for q_ in a_.get("params", []):
+                                    for bd in hir.pat_bindings(q_):
+                                        ids.add(bd["id"])
+                for x in hir.nodes(b["body"]):
+                    src_, pat_ = None, None
+                    if x.get("k") == "Let" and x.get("init") is not None:
+                        src_, pat_ = x["init"], x["pat"]
+                    elif x.get("k") == "LetExpr":
+                        src_, pat_ = x.get("init") or x.get("e"), x["pat"]
+                    if src_ is None or pat_ is None:
+                        continue
+                    s_ = hir.strip(src_)
+                    while s_.get("k") in ("Try",) or (s_.get("k") == "MethodCall" and s_["m"] in ("unwrap", "unwrap_or", "unwrap_or_default", "expect", "unwrap_or_else")):
+                        s_ = hir.strip(s_["e"] if s_.get("k") == "Try" else s_["recv"])
+                    if s_ is pos:
+                        for bd in hir.pat_bindings(pat_):
+                            ids.add(bd["id"])
+                if not ids or base is None:
+                    out.add(item, "an index is used with the sequence it was counted in", None, c.loc(pos["sp"]),
+                            "position() behind `%s`: where the index goes was not followed" % distorted[0])
+                    continue
+                bad = None
+                for x in hir.nodes(b["body"]):
+                    if x.get("k") == "Index" and place(hir.strip_ref(hir.strip(x["base"]))) == base and \
+                            any((hir.path_local(y) or {}).get("id") in ids for y in hir.nodes(x["idx"], "Path")):
+                        bad = x
+                    if x.get("k") in ("Call", "MethodCall"):
+                        args = list(x.get("args") or []) + ([x["recv"]] if x.get("k") == "MethodCall" else [])
+                        has_base = any(place(hir.strip_ref(hir.strip(a_))) == base for a_ in args)
+                        has_idx = any((hir.path_local(hir.strip_ref(hir.strip(a_))) or {}).get("id") in ids for a_ in args)
+                        if has_base and has_idx and (hir.local_callee_body(prog, x) is not None or
+                                                     (x.get("k") == "MethodCall" and x["m"] in ("get", "get_mut", "split_at", "nth", "swap", "remove", "insert"))):
+                            bad = x
+                out.add(item, "an index is used with the sequence it was counted in", bad is None, c.loc((bad or pos)["sp"]),
+                        "the index is counted behind `.%s(..)` but used on `%s` itself: with two comment lines in front of the cursor the token "
+                        "that is looked at is two tokens further on, a parameter behind a two-line file header is resolved in the global "
+                        "scope only (hover answers nothing)" % (distorted[0], base), ("domain",))
+    if n == 0:
+        out.add("features", "an index is used with the sequence it was counted in", True, "", "no position() search")
+    return out
+
+
 # ------------------------------------------------------------------ ONE-PER-ITEM
 
 def rule_one_per_item(prog):
